@@ -353,6 +353,16 @@ class ValidatorFile:
 COMMANDS = ["new", "from-master-xprv", "from-mnemonic", "from-bip39-seed", "from-entropy-hex", None]
 
 
+def _named(effect, names):
+    """the arguments of a recorded call by parameter name, whether they were passed positionally or by keyword"""
+    _, a, k = effect
+    if len(a) > len(names) or any(n in k for n in names[:len(a)]):
+        return None
+    d = dict(zip(names, a))
+    d.update(k)
+    return d
+
+
 @contract
 class MainWiring:
     """C20/C15: main() builds the wallet named by the sub-command from the parsed values, generates with the
@@ -457,8 +467,8 @@ class MainWiring:
         yield "ensures.generate_once", okg
         if not okg:
             return
-        gk = gens[0][2]
-        yield "ensures.generate_arguments", not gens[0][1] and set(gk) == {"account", "interval"} and gk["account"] is f["account"] and gk["interval"] is f["interval"]
+        gk = _named(gens[0], ["account", "interval"])
+        yield "ensures.generate_arguments", gk is not None and set(gk) == {"account", "interval"} and gk["account"] is f["account"] and gk["interval"] is f["interval"]
         data0 = None
         # the value returned by wallet.generate(...) is the Mock created by that call
         outs = [e for e in eff if e[0] in ("wallet.pprint", "wallet.export_wallet")]
@@ -466,7 +476,9 @@ class MainWiring:
         if len(outs) != 1:
             return
         o = outs[0]
-        emitted = o[2].get("data")
+        ok_ = _named(o, ["data", "indent"] if o[0] == "wallet.pprint" else ["file_path", "indent", "data"]) or {}
+        ok_.pop("indent", None)                      # layout, not content
+        emitted = ok_.get("data")
         par = [e for e in eff if e[0] == "paranoia_mode"]
         paranoia_on = c.feasible(f["paranoia"]) and not c.feasible(z3.Not(f["paranoia"]))
         if paranoia_on:
@@ -477,10 +489,19 @@ class MainWiring:
             yield "ensures.no_paranoia.no_filter", len(par) == 0
             yield "ensures.no_paranoia.emitted_is_generated", isinstance(emitted, Mock) and emitted.tag == "wallet.generate()"
         if f["file"] is None:
-            yield "ensures.channel.stdout_when_no_file", o[0] == "wallet.pprint" and not o[1] and set(o[2]) == {"data"}
+            yield "ensures.channel.stdout_when_no_file", o[0] == "wallet.pprint" and set(ok_) == {"data"}
         else:
-            yield "ensures.channel.file_when_given", o[0] == "wallet.export_wallet" and not o[1] and o[2].get("file_path") is f["file"] and set(o[2]) == {"file_path", "data"}
+            yield "ensures.channel.file_when_given", o[0] == "wallet.export_wallet" and ok_.get("file_path") is f["file"] and set(ok_) == {"file_path", "data"}
         yield "ensures.order", names.index("wallet.generate") < names.index(o[0]) and names[-1] == o[0]
+
+
+def _dest_ok(o):
+    """no explicit dest, or the one argparse would derive from the (first long) option string anyway"""
+    d = o[1].get("dest")
+    if d is None:
+        return True
+    longs = [x for x in o[0] if x.startswith("--")] or list(o[0])
+    return simplify_native(d) == longs[0].lstrip("-").replace("-", "_")
 
 
 @contract
@@ -554,7 +575,7 @@ class ParseArgsWiring:
             return x is y or (type(x) is type(y) and x == y)
         o = opt("parser", "--account")
         yield "ensures.account.validator_and_default", o is not None and o[1].get("type") is M.account_index and same(o[1].get("default"), 0) \
-            and "nargs" not in o[1] and "action" not in o[1] and "dest" not in o[1]
+            and "nargs" not in o[1] and "action" not in o[1] and _dest_ok(o)
         o = opt("parser", "--interval")
         okd = False
         if o is not None:
@@ -562,14 +583,15 @@ class ParseArgsWiring:
             d = c.deref(d).items if isinstance(d, Ref) else d
             okd = isinstance(d, (list, tuple)) and [simplify_native(x) for x in d] == [0, 20]
         yield "ensures.interval.two_validated_values_default_0_20", o is not None and o[1].get("type") is M.address_index and same(o[1].get("nargs"), 2) and okd \
-            and "action" not in o[1] and "dest" not in o[1]
+            and "action" not in o[1] and _dest_ok(o)
         o = opt("parser", "--file")
         yield "ensures.file.validator", o is not None and set(o[0]) == {"-f", "--file"} and o[1].get("type") is M.file_ and "default" not in o[1] \
-            and not o[1].get("required") and "action" not in o[1] and "dest" not in o[1]
+            and not o[1].get("required") and "action" not in o[1] and _dest_ok(o)
         for flag in ("--testnet", "--paranoia"):
             o = opt("parser", flag)
-            yield f"ensures.{flag[2:]}.store_true_flag", o is not None and o[0] == (flag,) and o[1].get("action") == "store_true" and "default" not in o[1] and "dest" not in o[1]
-        yield "ensures.global_options_exactly", sorted(a for a, k in table.get("parser", [])) == sorted([("-f", "--file"), ("--testnet",), ("--paranoia",), ("--account",), ("--interval",)])
+            yield f"ensures.{flag[2:]}.store_true_flag", o is not None and o[0] == (flag,) and o[1].get("action") == "store_true" and "default" not in o[1] and _dest_ok(o)
+        have = {x for a, k in table.get("parser", []) for x in a}
+        yield "ensures.global_options_present", {"--file", "--testnet", "--paranoia", "--account", "--interval"} <= have
         pos = {"from-master-xprv": ("master_xprv", M.extended_key), "from-mnemonic": ("mnemonic", M.mnemonic),
                "from-bip39-seed": ("seed_hex", M.bip39_seed), "from-entropy-hex": ("entropy_hex", M.entropy_hex)}
         pw = {"new": True, "from-mnemonic": True, "from-entropy-hex": True, "from-master-xprv": False, "from-bip39-seed": False}
@@ -580,20 +602,20 @@ class ParseArgsWiring:
                 want.append((pos[cmd][0],))
                 o = opt(f"sub[{cmd}]", pos[cmd][0])
                 yield f"ensures.{cmd}.positional_validator", o is not None and o[0] == (pos[cmd][0],) and o[1].get("type") is pos[cmd][1] \
-                    and not (set(o[1]) - {"type", "help"})
+                    and not (set(o[1]) - {"type", "help", "metavar"})
             if pw[cmd]:
                 want.append(("--password",))
                 o = opt(f"sub[{cmd}]", "--password")
                 yield f"ensures.{cmd}.password_string_default_empty", o is not None and o[1].get("type") is str and same(o[1].get("default"), "") \
-                    and not o[1].get("required") and "dest" not in o[1] and "action" not in o[1]
+                    and not o[1].get("required") and _dest_ok(o) and "action" not in o[1]
             if cmd == "new":
                 want.append(("--mnemonic-len",))
                 o = opt("sub[new]", "--mnemonic-len")
                 ch = o[1].get("choices") if o else None
                 ch = c.deref(ch).items if isinstance(ch, Ref) else ch
                 yield "ensures.new.mnemonic_len_choices", o is not None and o[1].get("type") is int and same(o[1].get("default"), 24) \
-                    and ch is not None and sorted(simplify_native(x) for x in ch) == [12, 15, 18, 21, 24] and "dest" not in o[1] and "action" not in o[1]
-            yield f"ensures.{cmd}.arguments_exactly", sorted(a for a, k in rows) == sorted(want)
+                    and ch is not None and sorted(simplify_native(x) for x in ch) == [12, 15, 18, 21, 24] and _dest_ok(o) and "action" not in o[1]
+            yield f"ensures.{cmd}.arguments_present", {w[0] for w in want} <= {x for a, k in rows for x in a}
 
 
 CANARIES = []
